@@ -106,7 +106,7 @@ func pureInstr(ins ssa.Instruction) bool {
 	case *ssa.UnOp:
 		return x.Op != token.ARROW
 	case *ssa.Convert, *ssa.ChangeType, *ssa.ChangeInterface, *ssa.MakeInterface, *ssa.Extract,
-		*ssa.Field, *ssa.FieldAddr, *ssa.IndexAddr, *ssa.Index, *ssa.Phi, *ssa.DebugRef, *ssa.Jump, *ssa.If:
+		*ssa.Field, *ssa.FieldAddr, *ssa.IndexAddr, *ssa.Index, *ssa.Phi, *ssa.DebugRef, *ssa.Jump, *ssa.If, *ssa.Return:
 		return true
 	case *ssa.Slice:
 		return true
@@ -141,7 +141,12 @@ func (in *interp) region(fr *frame, b *ssa.BasicBlock) *diamond {
 		fi.ipdom = postDoms(fr.fn)
 	}
 	j := fi.ipdom[b]
-	if j == nil || j == b {
+	if j == b {
+		return d
+	}
+	// j == nil: both arms leave the function; the region is then merged at
+	// its Return instructions (e.g. abs, min, small predicates)
+	if j == nil && fr.fn.Recover != nil {
 		return d
 	}
 	// collect region blocks
@@ -166,7 +171,12 @@ func (in *interp) region(fr *frame, b *ssa.BasicBlock) *diamond {
 			return d
 		}
 		if len(x.Succs) == 0 {
-			return d
+			if j != nil {
+				return d
+			}
+			if _, isRet := x.Instrs[len(x.Instrs)-1].(*ssa.Return); !isRet {
+				return d
+			}
 		}
 		for _, ins := range x.Instrs {
 			if !pureInstr(ins) {
@@ -206,7 +216,7 @@ func (in *interp) region(fr *frame, b *ssa.BasicBlock) *diamond {
 	// region blocks must not be entered from outside (other than via b), and
 	// none may dominate the join (its values could be used past the join)
 	for x := range blocks {
-		if x.Dominates(j) {
+		if j != nil && x.Dominates(j) {
 			return d
 		}
 		for _, p := range x.Preds {
@@ -238,9 +248,17 @@ func (in *interp) tryIfConvert(fr *frame, instr *ssa.If, c Sym) (value, bool) {
 		return nil, false
 	}
 	j := d.join
-	nphi := fr.info.firstNonPhi[j]
-	if nphi < 0 {
-		nphi = 0
+	nphi := 0
+	if j != nil {
+		nphi = fr.info.firstNonPhi[j]
+		if nphi < 0 {
+			nphi = 0
+		}
+	} else {
+		if fr.defers != nil {
+			return nil, false
+		}
+		nphi = fr.fn.Signature.Results().Len()
 	}
 	var exits []specExit
 	ok := true
@@ -249,7 +267,7 @@ func (in *interp) tryIfConvert(fr *frame, instr *ssa.If, c Sym) (value, bool) {
 		if !ok {
 			return
 		}
-		if blk == j {
+		if j != nil && blk == j {
 			if len(exits) >= maxRegionPaths {
 				ok = false
 				return
@@ -276,6 +294,17 @@ func (in *interp) tryIfConvert(fr *frame, instr *ssa.If, c Sym) (value, bool) {
 		}
 		for _, ins := range blk.Instrs[first:] {
 			switch t := ins.(type) {
+			case *ssa.Return:
+				if j != nil || len(exits) >= maxRegionPaths {
+					ok = false
+					return
+				}
+				ex := specExit{guard: guard, pred: blk}
+				for _, rv := range t.Results {
+					ex.phis = append(ex.phis, fr.get(rv))
+				}
+				exits = append(exits, ex)
+				return
 			case *ssa.Jump:
 				walk(blk.Succs[0], blk, guard)
 				return
@@ -360,6 +389,20 @@ func (in *interp) tryIfConvert(fr *frame, instr *ssa.If, c Sym) (value, bool) {
 		} else {
 			merged[k] = in.symInt(acc, kind)
 		}
+	}
+	if j == nil {
+		switch nphi {
+		case 0:
+			fr.result = nil
+		case 1:
+			fr.result = merged[0]
+		default:
+			fr.result = tuple(merged)
+		}
+		fr.block = nil
+		fr.retDone = true
+		in.stats.IfConverted++
+		return nil, true
 	}
 	for k := 0; k < nphi; k++ {
 		fr.set(j.Instrs[k].(*ssa.Phi), merged[k])
